@@ -82,7 +82,8 @@ func runC04(seed int64, n int, dir string, tier string) *Report {
 	g := gen.New(seed)
 	rep := NewReport("C04", seed)
 	rep.Rule = "every single schema fault (null, absent, wrong type x4, empty, oversized, duplicated element, deep nesting, duplicated member) at up to n JSON paths of each seed document (the repository's real SPDX and CycloneDX SBOMs under 80 kB and writer output of generated documents), parsed with auto-detection and with the format stated; plus random byte strings and truncations; outcomes: document / error / panic / hang / both / neither; non-trivial = mutant that still parses to a document; distinct by hash of (path, fault)"
-	cf := &CasesFile{Imports: "Model.Base Corr.CheckC04", Type: "case04", Eval: "mismatches"}
+	cf, xs, xc := newXlateCases()
+	seamBudget, seamSeen := 2*n, 0
 	seeds := seedDocuments(g, tier)
 	// writer output of generated documents
 	for i := 0; i < 3; i++ {
@@ -117,6 +118,14 @@ func runC04(seed int64, n int, dir string, tier string) *Report {
 				in["input"] = string(m.Data)
 			}
 			rep.NoteCase(name+m.Path+m.Fault, po.kind == "doc", in)
+			if po.kind == "doc" {
+				// the model's unserializer on what the third-party decoder returns for this mutant
+				seamSeen++
+				if seamSeen%7 == 0 && len(cf.Items) < seamBudget && len(m.Data) < 30000 {
+					cdxUnserSeam(rep, xc, m.Data, "mutant", in)
+					spdxUnserSeam(rep, xs, m.Data, "mutant", in)
+				}
+			}
 			switch po.kind {
 			case "panic":
 				rep.Fail(Failure{What: "a parser panicked on schema-violating input", Detail: po.err, Input: in})
